@@ -14,18 +14,36 @@
  *                                           LYD_PARSE_ONLY (not strict: the annotation of the unknown module is to be skipped)
  *                                             -> ok <JSON of the parsed tree, hex> | err Parse<LY_ERR>
  *   leakcheck
- *   wd: explicit | trim | all | all-tag | impl-tag                                                                                */
+ *   wd: explicit | trim | all | all-tag | impl-tag, or single:<wd> = lyd_print_tree() of the first top-level node (no LYD_PRINT_WITHSIBLINGS)                                                                                */
 #define _GNU_SOURCE
 #include "treeproto.h"
+
+/* `single:<wd>`: print with lyd_print_tree (no LYD_PRINT_WITHSIBLINGS) */
+static int
+is_single(const char *wd)
+{
+    return !strncmp(wd, "single:", 7);
+}
+
+static LY_ERR
+print_lyb(struct ly_out *out, const struct lyd_node *forest, const char *wd);
 
 static uint32_t
 wd_flag(const char *wd)
 {
+    if (is_single(wd)) wd += 7;
     if (!strcmp(wd, "trim")) return LYD_PRINT_WD_TRIM;
     if (!strcmp(wd, "all")) return LYD_PRINT_WD_ALL;
     if (!strcmp(wd, "all-tag")) return LYD_PRINT_WD_ALL_TAG;
     if (!strcmp(wd, "impl-tag")) return LYD_PRINT_WD_IMPL_TAG;
     return LYD_PRINT_WD_EXPLICIT;
+}
+
+static LY_ERR
+print_lyb(struct ly_out *out, const struct lyd_node *forest, const char *wd)
+{
+    if (is_single(wd)) return lyd_print_tree(out, forest, LYD_LYB, wd_flag(wd));
+    return lyd_print_all(out, forest, LYD_LYB, wd_flag(wd));
 }
 
 static const struct tp_schema *
@@ -57,7 +75,7 @@ op_print(const char *id, const char *key, const char *yanghex, const char *wd, c
     if (!text || tp_load(s, text, 1, &forest)) { vp_reply(id, "err Build"); goto cleanup; }
     tp_dump(s, forest, &b);
     if (ly_out_new_memory(&mem, 0, &out)) { vp_reply(id, "err Out"); goto cleanup; }
-    r = lyd_print_all(out, forest, LYD_LYB, wd_flag(wd));
+    r = print_lyb(out, forest, wd);
     if (r) { vp_reply(id, "err Print%s", tp_errname(r)); goto cleanup; }
     vp_begin(id, "ok");
     if (b.len) vp_field_hex(b.s, b.len); else vp_field_s("-");
@@ -121,7 +139,7 @@ op_printm(const char *id, const char *key, const char *yanghex, const char *wd, 
     tp_dump(s, forest, &b);
     if (strcmp(b.s ? b.s : "", text)) { vp_reply(id, "err NotCanonical"); goto cleanup; }
     if (ly_out_new_memory(&mem, 0, &out)) { vp_reply(id, "err Out"); goto cleanup; }
-    r = lyd_print_all(out, forest, LYD_LYB, wd_flag(wd));
+    r = print_lyb(out, forest, wd);
     if (r) { vp_reply(id, "err Print%s", tp_errname(r)); goto cleanup; }
     vp_begin(id, "ok");
     vp_field_hex(b.s, b.len);
